@@ -259,12 +259,45 @@ func runC18(r *Run, stratum string) *Violation {
 		isBad := u == badAt
 		badKind := ""
 		if isBad {
-			badKind = []string{"crossslot-cmd", "crossslot-txn", "nokeys"}[g.Choose("badkind", 3)]
+			badKind = []string{"crossslot-cmd", "crossslot-txn", "nokeys", "crossslot-emptykey"}[g.Choose("badkind", 4)]
 		}
 		tagSet := []string{tags[g.Choose("unittag", len(tags))]}
 		gen.opts.KeyGen = slotKeyGen(g, tagSet, false)
 		n := 1
 		us.txn = g.Choose("unittxn", 3) == 0 || badKind == "crossslot-txn"
+		if badKind == "crossslot-emptykey" {
+			// the empty string is a legal key (slot 0): next to a tagged key of another slot it makes the unit
+			// cross-slot — as one multi-key command, or as the second command of a transaction
+			tk := []byte("{" + tagSet[0] + "}e" + fmt.Sprint(g.Choose("ek", 50)))
+			if simredis.HashSlot(tk) == 0 {
+				tk = append(tk, 'x')
+			}
+			two := [][]byte{[]byte{}, tk}
+			if g.Choose("ekorder", 2) == 0 {
+				two = [][]byte{tk, []byte{}}
+			}
+			multi := [][][]byte{
+				append([][]byte{[]byte("del")}, two...),
+				append([][]byte{[]byte("unlink")}, two...),
+				append([][]byte{[]byte("rename")}, two...),
+				{[]byte("sdiffstore"), tk, two[0], two[1]},
+			}[g.Choose("ekcmd", 4)]
+			us.txn = g.Choose("ektxn", 2) == 0
+			if us.txn {
+				us.cmds = append(us.cmds, [][]byte{[]byte("set"), tk, []byte("1")})
+			}
+			us.cmds = append(us.cmds, multi)
+			for _, c := range us.cmds {
+				if sl, ok := simredis.SlotsOf(strings.ToLower(string(c[0])), c[1:]); ok {
+					for _, x := range sl {
+						us.slots[x] = true
+					}
+				}
+			}
+			us.bad = badKind
+			units = append(units, us)
+			continue
+		}
 		if us.txn {
 			n = 1 + g.Choose("txnlen", 4)
 			if badKind == "crossslot-txn" && n < 2 {
